@@ -267,3 +267,29 @@ Proof.
     + apply (Rmult_eq_reg_r (exp (- x))); [|lra]. replace (exp x / exp (- x) * exp (- x)) with (exp x) by (field; lra). rewrite Rmult_assoc, E. ring.
     + field. repeat split; lra.
 Qed.
+
+(* ---------- further inverse pairs ---------- *)
+Theorem TANH_ATANH y : -1 < y < 1 -> run body_TANH [val (run body_ATANH [y])] = OVal y.
+Proof.
+  intros [H1 H2]. rewrite ATANH_spec. destruct (Rlt_dec (-1) y); [|contradiction]. destruct (Rlt_dec y 1); [|contradiction].
+  cbn [val]. rewrite TANH_value. f_equal. unfold atanh_r. set (q := (1 + y) / (1 - y)).
+  assert (0 < q) as Hq by (unfold q; apply Rdiv_lt_0_compat; lra).
+  set (z := / 2 * ln q). assert (exp z * exp z = q) as E.
+  { rewrite <- exp_plus. replace (z + z) with (ln q) by (unfold z; field). apply exp_ln, Hq. }
+  assert (exp z * exp (- z) = 1) as I by (rewrite <- exp_plus; replace (z + - z) with 0 by ring; apply exp_0).
+  pose proof (exp_pos z) as P. pose proof (exp_pos (- z)) as P'.
+  unfold tanh, sinh, cosh.
+  assert ((exp z - exp (- z)) / 2 / ((exp z + exp (- z)) / 2) = (q - 1) / (q + 1)) as ->.
+  { apply (Rmult_eq_reg_r ((exp z + exp (- z)) / 2 * (q + 1))); [|apply Rmult_integral_contrapositive_currified; lra].
+    field_simplify; [|lra|lra]. rewrite <- E. replace (exp (- z)) with (/ exp z) by (apply (Rmult_eq_reg_l (exp z)); [rewrite I; field; lra|lra]). field. lra. }
+  unfold q. field. lra.
+Qed.
+Theorem COT_ACOT y : run body_COT [val (run body_ACOT [y])] = OVal y.
+Proof.
+  rewrite ACOT_spec. destruct (Req_EM_T y 0) as [->|Hy]; cbn [val]; rewrite COT_spec.
+  - rewrite sin_PI2, cos_PI2. destruct (Req_EM_T 1 0); [lra|]. f_equal. field.
+  - pose proof (hyp_pos (1 / y)) as Hs. rewrite sin_atan, cos_atan.
+    assert (1 / y / sqrt (1 + Rsqr (1 / y)) <> 0) as N.
+    { unfold Rdiv. apply Rmult_integral_contrapositive_currified; [apply Rmult_integral_contrapositive_currified; [lra|apply Rinv_neq_0_compat; exact Hy]|apply Rinv_neq_0_compat; lra]. }
+    destruct (Req_EM_T (1 / y / sqrt (1 + Rsqr (1 / y))) 0); [contradiction|]. f_equal. field. repeat split; first [exact Hy|lra].
+Qed.
